@@ -83,7 +83,16 @@ struct Explorer {
         group = g; bound = b; lc.groups++; group_enc.clear(); for (size_t i = 0; i < g.size(); i++) group_enc += fmt("%s%d", i ? "," : "", g[i]);
         explore(std::vector<uint8_t>());
     }
-    void solo_runs() { solo.clear(); for (int b = 0; b < CONC_NBODIES; b++) { smm.led.reset(); solo.push_back(world.run_body(b, 0)); } smm.led.reset(); data.take(); }
+    void solo_runs() {
+        solo.clear();
+        for (int b = 0; b < CONC_NBODIES; b++) {
+            smm.led.reset(); int sig;
+            if ((sig = GUARD_ENTER()) != 0) { ctx.violation("", fmt("%d`%s`", b, block_level ? "b" : "a"), fmt("%s in thread body '%s' run alone (crash, or write to a shared read-only input)", signame(sig), CONC_BODY_NAMES[b])); solo.push_back("crashed"); continue; }
+            solo.push_back(world.run_body(b, 0)); GUARD_LEAVE();
+            long ch = data.changed(); if (ch >= 0) { ctx.violation("", fmt("%d`%s`", b, block_level ? "b" : "a"), fmt("a byte of the library's writable data changed while '%s' ran alone: the library keeps mutable global/static state", CONC_BODY_NAMES[b])); data.take(); }
+        }
+        smm.led.reset(); data.take();
+    }
 };
 
 void run(Ctx &ctx) {
